@@ -276,6 +276,24 @@ CLAIMED["C06"] = (
     "(bytecode level), the atomicity of deque.append / popleft and Lock.acquire under the GIL, and asyncio's own "
     "scheduler are trusted.  One genuine defect repaired (fix: f9a2952, stranded event).")
 
+CLAIMED["C15"] = (
+    "Theorems (Properties/C15.v): executing the class body of the a.to(b), b.from_(a), a.to.itself(), "
+    "multi-target a.to(b, c) and multi-source c.from_(a, b) renderings of any abstract machine creates exactly its "
+    "transitions in its order, hence every state gets the same ordered transition list in each of them; with "
+    "events attached by class attributes (`ev = t1 | t2`, Event(t1 | t2, ...)) every transition is bound to "
+    "exactly its events; from_.any() equals one explicit transition from every non-final state written after "
+    "everything else (D14 as visible hypothesis).  Tied to /repo by rendering each random abstract machine as "
+    "baseline and in up to 10 (quick) / 24 (thorough) random combinations of {event=\"a b\", event=[...], Event() "
+    "objects, attribute assignment, Event(tl, name=)} x {to, from_, multi-target, multi-source} x itself() x "
+    "{State attributes, States({...}), States.from_enum} x {direct, inherited from a base class}, plus a "
+    "from_.any() rendering: the real classes must have the same states, event set and ordered per-state "
+    "transitions (target, internal, events, guards, validators, callbacks) and give the same observations on the "
+    "common history; the baseline is compared with the engine model in coqc.",
+    "Coq proof (creation-order semantics of the declaration styles) + pairwise differential correspondence of renderings",
+    "DESIGN.md 5 C15",
+    "Partial: decorator-declared events are not rendered; States / enum / inheritance / Event-object styles are "
+    "covered by the correspondence only (the Coq model covers the transition-creating and event-attaching calls).")
+
 PENDING_REASON = "check not built yet in this session (work in progress; see DESIGN.md 9 for the order of work)"
 
 ALL = [f"C{i:02d}" for i in range(1, 19)]
